@@ -41,9 +41,10 @@ type Schedule struct {
 	Ev    []SEvent   `json:"ev"`
 	Ver   string     `json:"ver"`  // "1.2" | "1.3" | "1.0"
 	Side  string     `json:"side"` // "client" | "server": which end is the connection under test
-	Mode  string     `json:"mode"` // "strict" | "loose"
+	Mode  string     `json:"mode"` // "strict" | "loose" | "free" (every gate open from the start: stress)
 	Seed  int64      `json:"seed"`
 	// options
+	Reneg   bool `json:"reneg"`   // client Config.Renegotiation = RenegotiateFreelyAsClient (TLS <= 1.2)
 	NoDRS   bool `json:"nodrs"`   // DynamicRecordSizingDisabled (Write2 = exactly two records)
 	Tickets bool `json:"tickets"` // session tickets on (TLS 1.3: post-handshake messages on the read path)
 	RdBuf   int  `json:"rdbuf"`   // Read buffer of the goroutines under test (multiple of 3)
@@ -83,8 +84,8 @@ const (
 	bigLen   = 16384 + 101 // more than one maximal record, multiple of 3
 )
 
-func writeID(g, k int) int  { return g*8 + k } // g 1..3, k 1..7  -> 9..31
-func peerWriteID(k int) int { return 64 + k }
+func writeID(g, k int) int  { return g*16 + k } // g 1..6, k 1..15 -> 17..111
+func peerWriteID(k int) int { return 112 + k }  // k 1..15
 
 func classify(err error) string {
 	if err == nil {
@@ -176,6 +177,13 @@ func (r *run) doCall(w *worker, k int, call string) {
 		w.log.add(t0, Event{"ev": "cs", "g": w.g, "k": k, "call": call})
 		st := r.cut.ConnectionState()
 		w.log.add(t0, Event{"ev": "ce", "g": w.g, "k": k, "call": call, "cls": "ok", "hc": st.HandshakeComplete, "ver": int(st.Version)})
+	case "ConnStateLoop":
+		// keeps handshakeMutex busy for a while (stress schedules)
+		w.log.add(t0, Event{"ev": "cs", "g": w.g, "k": k, "call": call})
+		for i := 0; i < 300; i++ {
+			_ = r.cut.ConnectionState()
+		}
+		w.log.add(t0, Event{"ev": "ce", "g": w.g, "k": k, "call": call, "cls": "ok"})
 	case "VerifyHostname":
 		// takes handshakeMutex like ConnectionState (conn.go VerifyHostname)
 		w.log.add(t0, Event{"ev": "cs", "g": w.g, "k": k, "call": call})
@@ -380,6 +388,68 @@ func anyAt(st map[int64]*gstate, rd bool) *gstate {
 	return nil
 }
 
+// permitOp releases one transport operation: the one of goroutine tg if it waits at that gate,
+// otherwise whoever waits there.  Inside the handshake a whole flight is released (the model has one
+// action per flight).  The B model says that at most one goroutine is inside a transport write at
+// any time (c.out); if the dump shows several goroutines at the write gate, that is logged ("dblw")
+// and the scheduler releases a goroutine other than the target first.
+func (r *run) permitOp(stp *map[int64]*gstate, rd bool, tg int) bool {
+	st := *stp
+	var at []*gstate
+	for _, g := range st {
+		if rd && g.atR || !rd && g.atW {
+			at = append(at, g)
+		}
+	}
+	if len(at) == 0 {
+		return false
+	}
+	sort.Slice(at, func(i, j int) bool { return at[i].id < at[j].id })
+	var target *gstate
+	if ws := r.workerState(st, tg); ws != nil && (rd && ws.atR || !rd && ws.atW) {
+		target = ws
+	}
+	pick := target
+	if !rd && len(at) > 1 {
+		r.schedLog.add(r.t0, Event{"ev": "dblw", "n": len(at)})
+		for _, g := range at {
+			if target == nil || g.id != target.id {
+				pick = g
+				break
+			}
+		}
+	}
+	if pick == nil {
+		pick = at[0]
+	}
+	ch := r.gate.permW
+	if rd {
+		ch = r.gate.permR
+	}
+	if p := r.gate.perG[pick.id]; p != nil {
+		if rd {
+			ch = p.r
+		} else {
+			ch = p.w
+		}
+	}
+	ok := permit(ch)
+	// a handshake flight: keep permitting the same direction while the goroutine is inside the
+	// handshake and comes back to the same gate
+	for n := 0; ok && pick.inHS && n < 64; n++ {
+		st = r.settle()
+		*stp = st
+		g2 := st[pick.id]
+		if g2 == nil || !g2.inHS || !(rd && g2.atR || !rd && g2.atW) {
+			break
+		}
+		if !permit(ch) {
+			break
+		}
+	}
+	return ok
+}
+
 // ---------------------------------------------------------------- peer
 
 func (r *run) peerMain(ready *sync.WaitGroup) {
@@ -426,6 +496,20 @@ func (r *run) peerWriter(hsOK bool) {
 			if !hsOK {
 				continue
 			}
+			if c.K == "ku" || c.K == "kun" {
+				err := tls.VerifConnSendKeyUpdate(r.peer, c.K == "ku")
+				wl.add(r.t0, Event{"ev": "pku", "req": c.K == "ku", "cls": classify(err)})
+				continue
+			}
+			if c.K == "hr" {
+				wl.add(r.t0, Event{"ev": "phr"})
+				err := tls.VerifConnSendHelloRequest(r.peer)
+				wl.add(r.t0, Event{"ev": "phre", "cls": classify(err)})
+				continue
+			}
+			if c.K == "hs" || k >= 15 {
+				continue // post-handshake tickets arrive by themselves (TLS 1.3)
+			}
 			k++
 			ln := 6
 			if c.K == "d2" {
@@ -440,6 +524,21 @@ func (r *run) peerWriter(hsOK bool) {
 			wl.add(r.t0, Event{"ev": "pw", "w": id, "len": ln, "k": k})
 			_, err := r.peer.Write(payload(id, ln))
 			wl.add(r.t0, Event{"ev": "pwe", "w": id, "cls": classify(err)})
+		case "ku", "kun":
+			if !hsOK {
+				continue
+			}
+			err := tls.VerifConnSendKeyUpdate(r.peer, c.T == "ku")
+			wl.add(r.t0, Event{"ev": "pku", "req": c.T == "ku", "cls": classify(err)})
+		case "hr":
+			if !hsOK {
+				continue
+			}
+			// the zcrypto server refuses the renegotiation ClientHello with a fatal alert: from here
+			// on the peer may stop reading ("phr" is treated like a close by the peer)
+			wl.add(r.t0, Event{"ev": "phr"})
+			err := tls.VerifConnSendHelloRequest(r.peer)
+			wl.add(r.t0, Event{"ev": "phre", "cls": classify(err)})
 		case "pc":
 			wl.add(r.t0, Event{"ev": "pclose", "m": c.M})
 			if c.M == "cn" {
@@ -488,6 +587,9 @@ func runSchedule(s Schedule, watchdog time.Duration) (events []Event, stuck bool
 	v := versionOf(s.Ver)
 	ccfg := &tls.Config{InsecureSkipVerify: true, MinVersion: v, MaxVersion: v,
 		DynamicRecordSizingDisabled: s.NoDRS, SessionTicketsDisabled: !s.Tickets}
+	if s.Reneg {
+		ccfg.Renegotiation = tls.RenegotiateFreelyAsClient
+	}
 	if s.Tickets {
 		ccfg.ClientSessionCache = tls.NewLRUClientSessionCache(4)
 	}
@@ -522,6 +624,13 @@ func runSchedule(s Schedule, watchdog time.Duration) (events []Event, stuck bool
 	ready.Add(1)
 	go r.peerMain(&ready)
 	ready.Wait()
+	r.gate.perG = map[int64]*gperm{}
+	for _, w := range r.workers {
+		r.gate.perG[w.goid] = &gperm{r: make(chan struct{}), w: make(chan struct{})}
+	}
+	if s.Mode == "free" {
+		r.gate.openAll()
+	}
 	r.schedLog.add(r.t0, Event{"ev": "reset", "id": s.ID, "side": s.Side, "ver": s.Ver, "mode": s.Mode})
 	st := r.settle()
 
@@ -534,27 +643,8 @@ func runSchedule(s Schedule, watchdog time.Duration) (events []Event, stuck bool
 				ok = permit(r.workers[e.G-1].cmd)
 			}
 		case "w", "r":
-			rd := e.T == "r"
-			ch := r.gate.permW
-			if rd {
-				ch = r.gate.permR
-			}
-			if g := anyAt(st, rd); g != nil {
-				ok = permit(ch)
-				// a handshake flight: keep permitting the same direction while the goroutine is
-				// inside the handshake and comes back to the same gate
-				for n := 0; ok && g.inHS && n < 64; n++ {
-					st = r.settle()
-					g2 := st[g.id]
-					if g2 == nil || !g2.inHS || !(rd && g2.atR || !rd && g2.atW) {
-						break
-					}
-					if !permit(ch) {
-						break
-					}
-				}
-			}
-		case "ps", "pc":
+			ok = r.permitOp(&st, e.T == "r", e.G)
+		case "ps", "pc", "ku", "kun", "hr":
 			r.peerCmd <- e
 			ok = true
 		case "x":
@@ -572,7 +662,12 @@ func runSchedule(s Schedule, watchdog time.Duration) (events []Event, stuck bool
 		} else {
 			r.skipped++
 		}
-		if strict || e.T != "s" {
+		if s.Mode == "free" {
+			if d := r.rng.Intn(4); d > 0 {
+				time.Sleep(time.Duration(d*d) * 40 * time.Microsecond)
+			}
+			st = dumpStates()
+		} else if strict || e.T != "s" {
 			st = r.settle()
 		} else if r.rng.Intn(3) == 0 {
 			time.Sleep(time.Duration(r.rng.Intn(200)) * time.Microsecond)
